@@ -751,8 +751,62 @@ func (w *World) Apply(ev Event) (rec *StepRec) {
 	if n != nil && !w.Dead {
 		w.touch(n)
 	}
+	if w.Sc.TrackOut {
+		w.trackOut(rec, n)
+	}
 	w.runMonitors(rec)
 	return rec
+}
+
+// trackOut folds everything the node exposed during this event into the running
+// output hash (C19): the exact bytes of the Ready (messages in order, entries,
+// hard/soft state, read states, MustSync, snapshot), API results, and the dump of
+// the touched node afterwards.
+func (w *World) trackOut(rec *StepRec, n *Node) {
+	h := sha256.New()
+	var b [8]byte
+	binary.LittleEndian.PutUint64(b[:], w.Out)
+	h.Write(b[:])
+	fmt.Fprintf(h, "%v|%v|%v|%v|", rec.Ev, rec.OpErr, rec.StepErr, rec.Panic)
+	if rd := rec.Ready; rd != nil {
+		for _, m := range rd.Messages {
+			h.Write(enc(m))
+			h.Write([]byte{0xff})
+		}
+		for _, e := range rd.Entries {
+			h.Write(enc(e))
+		}
+		h.Write([]byte{0xfe})
+		for _, e := range rd.CommittedEntries {
+			h.Write(enc(e))
+		}
+		if rd.HardState != nil {
+			h.Write(enc(rd.HardState))
+		}
+		if rd.SoftState != nil {
+			fmt.Fprintf(h, "ss%d/%d", rd.SoftState.Lead, rd.SoftState.RaftState)
+		}
+		if rd.Snapshot != nil {
+			h.Write(enc(rd.Snapshot))
+		}
+		for _, rs := range rd.ReadStates {
+			fmt.Fprintf(h, "rs%d/%s", rs.Index, rs.RequestCtx)
+		}
+		fmt.Fprintf(h, "ms%v", rd.MustSync)
+	}
+	for _, m := range rec.Released {
+		h.Write(enc(m))
+	}
+	for _, m := range rec.LocalStep {
+		h.Write(enc(m))
+	}
+	if n != nil && !w.Dead {
+		if n.fp == nil {
+			n.fp = w.nodeFingerprint(n)
+		}
+		h.Write(n.fp)
+	}
+	w.Out = binary.LittleEndian.Uint64(h.Sum(nil))
 }
 
 func (w *World) exec(ev Event, n *Node, rec *StepRec) {
